@@ -243,6 +243,29 @@ def build(case):
             return ASrc(rr) if kinds[0] == "a" else rr
 
         return (lambda: list(itertools.starmap(f, rows)), lambda: take(ait.starmap(_a(f), rows_real())))
+    if fn == "alias":
+        # ONE iterator object passed in several argument positions (the grouper recipe zip_longest(*[it]*n)): the
+        # stdlib twin gets one plain iterator in the same positions
+        inner, n, kind, seq = p["inner"], p["n"], p["kind"], seqs[0]
+
+        def real_src():
+            if kind == "a":
+                return ASrc(seq)
+            if kind == "g":
+                return _agen(list(seq))
+            return iter(list(seq))
+
+        if inner == "zip_longest":
+            fv = p.get("fill")
+            return (lambda: (lambda it: list(itertools.zip_longest(*[it] * n, fillvalue=fv)))(iter(seq)),
+                    lambda: (lambda it: take(ait.zip_longest(*[it] * n, fillvalue=fv)))(real_src()))
+        if inner == "chain":
+            return (lambda: (lambda it: list(itertools.chain(*[it] * n)))(iter(seq)),
+                    lambda: (lambda it: take(ait.chain(*[it] * n)))(real_src()))
+        if inner == "compress":
+            return (lambda: (lambda it: list(itertools.compress(it, it)))(iter(seq)),
+                    lambda: (lambda it: take(ait.compress(it, it)))(real_src()))
+        raise AssertionError(inner)
     if fn == "zip_longest":
         fv = p.get("fill")
         return (lambda: list(itertools.zip_longest(*seqs, fillvalue=fv)),
@@ -283,6 +306,16 @@ async def run_tee(case, out):
     if len(its) != len(ref):
         out.bad("tee-count", f"{len(its)}!={len(ref)}")
         return
+    its = list(its)
+    fork = case["p"].get("fork")
+    if fork and its:
+        # tee() of a tee iterator made before anything was consumed: the clones are further full consumers
+        try:
+            its = list(its) + list(ait.tee(its[fork[0] % len(its)], fork[1]))
+        except Exception as e:  # noqa: BLE001
+            out.bad("tee-fork-refused", type(e).__name__, f"{case}")
+            return
+        out.labels.append("tee-fork")
     got = [[] for _ in its]
     done = [False] * len(its)
     cancelled_pulls = [0]
@@ -440,6 +473,17 @@ def _seqs(maxlen, alphabet=(0, 1, 2)):
 def enumerate_cases(tier):
     yield from _enumerate_single(tier)
     yield from _enumerate_pairs(tier)
+    yield from _enumerate_alias(tier)
+
+
+def _enumerate_alias(tier):
+    for seq in _seqs(5 if tier == "quick" else 6, (0, 1)):
+        for kind in ("a", "g", "i"):
+            for n in (2, 3):
+                for inner in ("zip_longest", "chain"):
+                    yield {"fn": "alias", "seqs": [seq], "kinds": ["a"],
+                           "p": {"inner": inner, "n": n, "kind": kind, "fill": "-"}}
+            yield {"fn": "alias", "seqs": [seq], "kinds": ["a"], "p": {"inner": "compress", "n": 2, "kind": kind}}
 
 
 def _enumerate_pairs(tier):
@@ -554,7 +598,7 @@ def _enumerate_single(tier):
 def _gen(g):
     if g.chance(15):
         a, b = _gen1(g, closable=True), _gen1(g, closable=True)
-        if a["fn"] != "tee" and b["fn"] != "tee":
+        if a["fn"] not in ("tee", "alias") and b["fn"] not in ("tee", "alias"):
             if g.chance(65):
                 b = dict(_gen1(g, force=a["fn"], closable=True))
             return {"fn": "pair", "a": a, "b": b, "seqs": [], "kinds": [],
@@ -583,6 +627,10 @@ def _gen1(g, force=None, closable=False):
                    "combinations_with_replacement", "compress", "count", "cycle", "dropwhile", "filterfalse",
                    "groupby", "islice", "pairwise", "permutations", "product", "repeat", "starmap", "tee",
                    "takewhile", "zip_longest", "reduce", "tee", "islice"])
+    if force is None and g.chance(5):
+        return {"fn": "alias", "seqs": [g.sample(st.lists(st.integers(0, 3), max_size=9))], "kinds": ["a"],
+                "p": {"inner": g.choice(["zip_longest", "zip_longest", "chain", "compress"]), "n": g.int(2, 4),
+                      "kind": g.choice(["a", "g", "i"]), "fill": g.choice([None, "-"])}}
     if force is not None:
         fn = force
     if fn == "accumulate":
@@ -644,8 +692,10 @@ def _gen1(g, force=None, closable=False):
         n = g.choice([-1, 0, 1, 2, 2, 3, 3, 4])
         mode = g.choice(["plan", "tasks", "tasks"])
         plan = [g.int(0, 8) + (100 if g.chance(12) else 0) for _ in range(g.int(0, 24))]
-        return {"fn": fn, "seqs": [seq(8)], "kinds": [kind()],
-                "p": {"n": n, "plan": plan, "mode": mode, "yields": g.int(0, 3)}}
+        p = {"n": n, "plan": plan, "mode": mode, "yields": g.int(0, 3)}
+        if g.chance(30):
+            p["fork"] = [g.int(0, 3), g.int(1, 3)]
+        return {"fn": fn, "seqs": [seq(8)], "kinds": [kind()], "p": p}
     raise AssertionError(fn)
 
 
